@@ -182,3 +182,23 @@ M("stosoo-argmin-b", "PyXAB/algos/StoSOO.py", "                                <
 M("doo-minus-delta", "PyXAB/algos/DOO.py", "self.b_value = self.reward + delta", "self.b_value = self.reward - delta", ["C08"])
 M("doo-delta-wrong-depth", "PyXAB/algos/DOO.py", "            delta = self.delta(h)\n", "            delta = self.delta(max(h - 1, 0))\n", ["C08"])
 M("doo-max-per-level-only", "PyXAB/algos/DOO.py", "                        if node.get_b_value() >= max_value:", "                        if node.get_b_value() >= max_value or node.get_depth() > max_node.get_depth() + 2:", ["C08"])
+
+# ---- GPO schedule (C09)
+M("gpo-rho-exponent", "PyXAB/algos/GPO.py", "rho = self.rhomax ** (2 * self.N / (2 * self.phase + 1))", "rho = self.rhomax ** (2 * self.N / (2 * self.phase + 2))", ["C09"])
+M("gpo-N-formula", "PyXAB/algos/GPO.py", "0.5 * self.Dmax * np.log((self.rounds / 2) / np.log(self.rounds / 2))", "0.5 * self.Dmax * np.log((self.rounds / 2) / np.log(self.rounds))", ["C09"])
+M("gpo-half-length-ceil", "PyXAB/algos/GPO.py", "self.half_phase_length = np.floor(self.rounds / (2 * self.N))", "self.half_phase_length = np.floor(self.rounds / (2 * self.N) + 0.25)", ["C09"])
+M("gpo-validate-first-proposal", "PyXAB/algos/GPO.py", "                point = self.curr_algo.pull(time)\n                self.goodx = point",
+  "                point = self.curr_algo.pull(time)\n                self.goodx = point if self.counter == 0 or self.phase < 3 else self.goodx", ["C09"])
+M("gpo-phase-rho-reuse", "PyXAB/algos/GPO.py", "            if self.counter == 0:\n                rho = self.rhomax ** (2 * self.N / (2 * self.phase + 1))",
+  "            if self.counter == 0:\n                rho = self.rhomax ** (2 * self.N / (2 * min(self.phase, 5) + 1))", ["C09"])
+M("gpo-last-phase-short", "PyXAB/algos/GPO.py", "        if self.counter >= 2 * self.half_phase_length:\n            # the phase is over",
+  "        if self.counter >= 2 * self.half_phase_length - (self.phase == self.N):\n            # the phase is over", ["C09"])
+
+# ---- POO (C10)
+M("poo-score-denominator", "PyXAB/algos/POO.py", ") / (np.ceil(self.n / self.N) + 1)", ") / (np.ceil(self.n / self.N) + 2)", ["C10"])
+M("poo-pass-bookkeeping", "PyXAB/algos/POO.py", "                self.n = self.n + self.N\n", "                self.n = self.n + self.N + (self.n > 40)\n", ["C10"])
+M("poo-times-not-counted", "PyXAB/algos/POO.py", "            self.Times[self.algo_counter] += 1\n", "            self.Times[self.algo_counter] += 1 if self.algo_counter != 2 else 0\n", ["C10"])
+M("poo-rho-grid", "PyXAB/algos/POO.py", "rho = self.rhomax ** (2 * self.N / (2 * self.phase + 1))", "rho = self.rhomax ** (2 * self.N / (2 * self.phase + 2))", ["C10"])
+M("poo-nu-scaled", "PyXAB/algos/POO.py", "                        nu=self.numax,\n                        rho=rho,\n                        domain", "                        nu=self.numax * 0.5,\n                        rho=rho,\n                        domain", ["C10"])
+M("poo-creation-counter", "PyXAB/algos/POO.py", "            if self.counter >= np.ceil(self.n / self.N):", "            if self.counter >= np.ceil(self.n / self.N) + (self.N == 8):", ["C10"])
+M("poo-pull-vs-receive-cursor", "PyXAB/algos/POO.py", "            algo = self.V_algo[self.algo_counter]\n            point = algo.pull(time)", "            algo = self.V_algo[self.algo_counter - (self.algo_counter == 3)]\n            point = algo.pull(time)", ["C10", "C04"])
